@@ -21,7 +21,7 @@ import (
 
 func init() {
 	sections["walletfile"] = func(c *Ctx) error {
-		c.Rep.Rule = "wallets x key sizes {16,32}: round trip, all truncation lengths, every byte x {^0x01,^0x80,^0xff}, wrong keys of both sizes (random, one bit off, zero-extended / doubled / halves of the right key, keys with a zero half), invalid key lengths, empty file; PEM round trip; non-trivial = distinct (case kind, position)"
+		c.Rep.Rule = "wallets x key sizes {16,32}: round trip, all truncation lengths, every byte x every single-bit flip and ^0xff, wrong keys of both sizes (random, one bit off, zero-extended / doubled / halves of the right key, keys with a zero half), invalid key lengths, empty file; PEM round trip; non-trivial = distinct (case kind, position)"
 		dir, err := os.MkdirTemp("", "vwf")
 		if err != nil {
 			return err
@@ -98,7 +98,7 @@ func init() {
 				}
 				// single byte corruptions
 				for i := 0; i < len(file); i++ {
-					for _, m := range []byte{0x01, 0x80, 0xff} {
+					for _, m := range []byte{0x01, 0x02, 0x04, 0x08, 0x10, 0x20, 0x40, 0x80, 0xff} { // every single bit (0x20: the case bit of a text encoding), and all of them
 						cp := append([]byte{}, file...)
 						cp[i] ^= m
 						os.WriteFile(tp, cp, 0o644)
